@@ -295,10 +295,8 @@ pub fn family(cfg: &FileCfg, snap: &[Entry]) -> Result<Vec<FamFile>, String> {
             continue;
         }
         if let Some(p) = classify(cfg, &e.name) {
-            let content = e
-                .content
-                .clone()
-                .ok_or_else(|| format!("{} does not gunzip", e.name))?;
+            // (a plain file whose configured suffix is "gz" is taken as it is)
+            let content = if p.gz { e.content.clone() } else { Some(e.bytes.clone()) }.ok_or_else(|| format!("{} does not gunzip", e.name))?;
             fam.push(FamFile {
                 name: e.name.clone(),
                 parsed: p,
